@@ -97,3 +97,29 @@ CASES = [
     S("s-lookup-swapped", "_create_lookup: {i: c ...}", ("{c: i for i, c in enumerate(X.columns)}", "{i: c for i, c in enumerate(X.columns)}")),
     S("s-lookup-shape0", "_create_lookup: array positions from shape[0]", ("{i: i for i in range(X.shape[1])}", "{i: i for i in range(X.shape[0])}")),
 ]
+
+# ---------------------------------------------------------------------- the rcond of the lstsq call (L2)
+LSQ = "np.linalg.lstsq(X_s_center, X_use, rcond=None)"
+CASES += [
+    R("r-rcond-omitted", "fit: rcond omitted (numpy >= 2.0: the default IS None)", (LSQ, "np.linalg.lstsq(X_s_center, X_use)")),
+    R("r-rcond-positional", "fit: rcond=None passed positionally", (LSQ, "np.linalg.lstsq(X_s_center, X_use, None)")),
+    R("r-rcond-temp", "fit: the lstsq result bound to one local and indexed; comment and logger.debug",
+      ("        self.beta_, _, _, _ = " + LSQ + "\n",
+       "        # least-squares coefficients of the other columns on the centred sensitive block\n        solution = " + LSQ + "\n"
+       "        logger.debug(\"rank %s\", solution[2])\n        self.beta_ = solution[0]\n")),
+    R("r-rcond-numpy-name", "fit: called as numpy.linalg.lstsq after `import numpy`",
+      ("import numpy as np\n", "import numpy\nimport numpy as np\n"), (LSQ, "numpy.linalg.lstsq(X_s_center, X_use, rcond=None)")),
+    S("s-rcond-1e-3", "fit: rcond=1e-3 (the reviewers' mutant: nearly collinear blocks are truncated)", (LSQ, "np.linalg.lstsq(X_s_center, X_use, rcond=1e-3)"),
+      expect="changed"),
+    S("s-rcond-positional-number", "fit: a cut-off passed positionally", (LSQ, "np.linalg.lstsq(X_s_center, X_use, 0.05)"), expect="changed"),
+    S("s-rcond-minus-one", "fit: rcond=-1 (the pre-1.14 default: eps without the max(M, N) factor)", (LSQ, "np.linalg.lstsq(X_s_center, X_use, rcond=-1)"),
+      expect="changed"),
+    S("s-rcond-zero-int", "fit: rcond=0 (nothing is ever truncated, not even exact rank deficiency)", (LSQ, "np.linalg.lstsq(X_s_center, X_use, rcond=0)"),
+      expect="changed"),
+    S("s-rcond-attribute", "fit: rcond read from a new constructor-independent attribute", (LSQ, "np.linalg.lstsq(X_s_center, X_use, rcond=self.alpha * 1e-3)"),
+      expect="refused"),
+    S("s-rcond-name", "fit: rcond is a module-level name", ("class CorrelationRemover(", "_RCOND = 1e-2\n\n\nclass CorrelationRemover("), (LSQ, "np.linalg.lstsq(X_s_center, X_use, rcond=_RCOND)"),
+      expect="refused"),
+    S("s-rcond-finfo", "fit: rcond=np.finfo(float).eps * 100", (LSQ, "np.linalg.lstsq(X_s_center, X_use, rcond=np.finfo(float).eps * 100)"), expect="refused"),
+    S("s-rcond-twice", "fit: a cut-off positionally AND rcond=None", (LSQ, "np.linalg.lstsq(X_s_center, X_use, 1e-3, rcond=None)"), expect="refused"),
+]
